@@ -361,6 +361,6 @@ func TestAny(t *testing.T) {
 			}
 			return out
 		},
-		Quick: 40000, Thorough: 250000,
+		Quick: 40000, Thorough: 200000,
 	})
 }
